@@ -10,9 +10,8 @@ use serde_json::{json, Value};
 use std::collections::{BTreeMap, BTreeSet};
 use std::path::Path;
 
-const RELATIVE_PREFIX: &str = "C05-relative-prefix-restripped";
-const SOURCE_NAME: &str = "C05-source-dir-name-restripped";
-const PREFIX_DOTDOT: &str = "C05-prefix-behind-dotdot-restripped";
+#[path = "../../c05/src/restrip.rs"]
+mod restrip;
 
 fn second_entries(r: &Recs) -> Vec<(String, CovResult)> {
     r.iter().map(|(_, rel, c)| (rel.clone(), c.clone())).collect()
@@ -43,11 +42,6 @@ fn run_twice(case: &Case) -> Twice {
     Twice { first, second }
 }
 
-/// lexical normal form of a relative path after dropping its first `n` components
-fn drop_components(rel: &str, n: usize) -> String {
-    rel.split('/').filter(|s| !s.is_empty()).skip(n).collect::<Vec<_>>().join("/")
-}
-
 /// The oracle and the two named matchers. A record is identified by its marker line.
 fn idem_oracle(case: &Case) -> Option<(String, Option<&'static str>)> {
     let tw = run_twice(case);
@@ -66,47 +60,18 @@ fn idem_oracle(case: &Case) -> Option<(String, Option<&'static str>)> {
         if rel2.as_deref() == Some(rel1.as_str()) && r2.iter().any(|x| x.2 == *c) {
             continue;
         }
-        // a path that the second run's own --ignore / --keep-only globs or --ignore-not-existing drop counts as "reported
-        // under that path" for the matchers
-        let ig = glob_set(&cfg.ignore);
-        let kp = glob_set(&cfg.keep);
-        let is = |want: String| -> bool {
-            Some(&want) == rel2.as_ref()
-                || (rel2.is_none() && (ig.is_match(&want) || (!cfg.keep.is_empty() && !kp.is_match(&want))
-                    || (cfg.ine && !cfg.sd.as_ref().map(|s| Path::new(s).join(&want).exists()).unwrap_or(false))))
+        // the exact matchers shared with harness/c05 (restrip.rs): the record reappears under one
+        // of the images of its path (prefix re-stripped and/or source-dir tail dropped, composed
+        // in the order of the code), or that image is withheld by the second run's own globs /
+        // --ignore-not-existing; the data is unchanged
+        let rc = restrip::RestripCfg { sd: cfg.sd.as_deref(), pd: cfg.pd.as_deref(), ignore: &cfg.ignore, keep: &cfg.keep,
+            ine: cfg.ine, cli: false };
+        let data_same = rel2.is_none() || r2.iter().any(|x| marker(&x.2) == marker(c) && x.2 == *c);
+        let f: Option<&'static str> = if !data_same { None } else {
+            restrip::images(rel1, &rc).into_iter()
+                .find(|(_, img)| rel2.as_ref() == Some(img) || (rel2.is_none() && restrip::dropped(img, &rc)))
+                .map(|(ids, _)| ids[0])
         };
-        // matcher 1: a relative, non-empty --prefix-dir is still a prefix of the reported path,
-        // and the second report has the path with that prefix stripped once more
-        let m1 = match &cfg.pd {
-            Some(p) if !p.starts_with('/') && !p.is_empty() => Path::new(rel1)
-                .strip_prefix(p)
-                .ok()
-                .map(|t| is(drop_components(t.to_str().unwrap(), 0)))
-                .unwrap_or(false),
-            _ => false,
-        };
-        // matcher 2: the source dir ends with the leading component(s) of the reported path, the
-        // path names no regular file below the source dir, and the second report has the path
-        // without those components
-        let m2 = match &cfg.sd {
-            Some(sd) if !Path::new(sd).join(rel1).is_file() => Path::new(rel1)
-                .ancestors()
-                .filter(|a| !a.as_os_str().is_empty() && Path::new(sd).ends_with(a))
-                .any(|a| is(drop_components(rel1, a.components().count()))),
-            _ => false,
-        };
-        // matcher 3: an ABSOLUTE --prefix-dir; the first run reported an absolute path below it
-        // (the key reached the prefix only through "..", which remove_prefix does not resolve),
-        // the second run strips the prefix
-        let m3 = match &cfg.pd {
-            Some(p) if p.starts_with('/') && rel1.starts_with('/') => Path::new(rel1)
-                .strip_prefix(p)
-                .ok()
-                .map(|t| !t.as_os_str().is_empty() && is(drop_components(t.to_str().unwrap(), 0)))
-                .unwrap_or(false),
-            _ => false,
-        };
-        let f = if m1 { Some(RELATIVE_PREFIX) } else if m3 { Some(PREFIX_DOTDOT) } else if m2 { Some(SOURCE_NAME) } else { None };
         match f {
             None => {
                 return Some((format!("re-import: {:?} is reported as {:?} the second time", rel1, rel2), None));
